@@ -121,7 +121,7 @@ func schedule(tag string) *vmcommon.GasCost {
 }
 
 func newScn(name string, o Opt) *Scn {
-	cfg := world.Config{Faults: o.Faults, CheckInv: o.CheckInv, NoFrozenGen: o.NoFrozen, MetaFieldLen: 1, MaxURIs: 1, Thin: o.Thin, NoPauseGen: o.NoPause, PauseBinary: o.PauseBinary, Split1: o.Split1 && !verif.Thorough(),
+	cfg := world.Config{Faults: o.Faults, CheckInv: o.CheckInv, NoFrozenGen: o.NoFrozen, MetaFieldLen: 1, MaxURIs: 1, Thin: o.Thin, NoPauseGen: o.NoPause, PauseBinary: o.PauseBinary, Split1: o.Split1 && (!verif.Thorough() || o.Medium),
 		GasEnough: o.GasEnough, NoReturnAfterError: o.NoRAE, DirectCallOnly: o.Direct, VaryHash: o.VaryHash}
 	if o.RealRoles {
 		cfg.RolesMax = 2
